@@ -15,6 +15,16 @@ CHECKS = {
  "C02": dict(engine="T", cat="translation_validation", ref="5 C02",
    text="For every generated operand pair the real compose::<false,false>/apply_func builds h; z3 (QF_LRA) then decides, per linear piece of h, that no real input exists at which h and g(f(x)) differ in definedness or value. Inputs (boundary points included) are universally quantified by the solver; operand shapes are bounded-exhaustive (<=2/<=3 decisions, K in {2,4}), coefficients seeded.",
    note=T_NOTE, technique="SMT (z3 QF_LRA) equivalence of the exported tree against the substitution g(f(x)), all inputs symbolic"),
+ "C03": dict(engine="T", cat="translation_validation", ref="5 C03",
+   text="Seeded histories (<=4 operations, cached feasibility states carried along) are run for real; every pruning step (infeasible_elimination, compose::<true>, tree + - *) is compared with its un-pruned counterpart: z3 decides, for every piece of the un-pruned object tightened by tau=1e-6, that no input exists where the pruned tree differs in definedness or value, and that every node removed with all its descendants has an empty path region up to tau.",
+   note=T_NOTE + "; regions thinner than tau may disappear (the property's own LP-tolerance carve-out)",
+   technique="SMT (z3 QF_LRA) equivalence before/after pruning for all inputs, emptiness of removed regions"),
+ "C08": dict(engine="T", cat="translation_validation", ref="5 C08",
+   text="Every shape with <=3 decisions plus seeded larger ones, terminals drawn from a pool of identical functions and near-copies, scrambled arena layouts and column-major matrices: the real reduce runs and z3 decides per piece that reduce(t) equals t for all inputs, definedness included; node count, idempotence, no identical terminal siblings left below the root and differing siblings kept are read off the exported trees.",
+   note=T_NOTE, technique="SMT (z3 QF_LRA) equivalence of the tree before and after reduce, all inputs symbolic; structural clauses by comparison of exports"),
+ "C09": dict(engine="T", cat="translation_validation", ref="5 C09",
+   text="For every generated tree (all shapes <=3 decisions, seeded 3-4, total/partial, scrambled layouts, parallel/coincident/zero-row predicates) z3 decides per node that routing implies membership in the reported path conditions, that strict interior points of the reported polytope are routed through the node, that terminal interiors are disjoint and that total trees cover the space; routing is the calibrated encoding of evaluate_decision and is confirmed by the real find_terminal at solver-chosen interior and on-hyperplane points. Stream order, depth, sibling counters and path conditions under every single (and pairs of) skip position are compared with a DFS derived from the exported links.",
+   note=T_NOTE, technique="SMT (z3 QF_LRA) region/routing agreement per node for all inputs; stream structure by comparison with exported links"),
  "C17": dict(engine="T", cat="translation_validation", ref="5 C17",
    text="Every schema generator (dims 1..3/1..5, every row/class, a parameter lattice containing the degenerate points), from_poly on seeded polytopes and from_slice+remove_axes on generated trees is run for real; z3 decides per piece of the produced tree that no real input exists where it differs from the textbook definition written out as an exact piece list (strict/non-strict sides as in the definitions).",
    note=T_NOTE, technique="SMT (z3 QF_LRA) equivalence of exported schema trees against textbook piecewise definitions, all inputs symbolic"),
